@@ -67,6 +67,37 @@ CHECKS = {
              'exact reconstruction) inside correct framing.',
         note='Trusted: reference model R. Fields wider than 50 bits with non-zero scale are outside the quantifier. '
              'Corpus messages whose exact table version is not bundled cannot be re-encoded (encoder has no fall-back).'),
+    'C05': dict(
+        level='model_checking', design='DESIGN.md §4 C05',
+        technique='exhaustive enumeration of ALL columns over the full raw domain (n<=3,w<=3; thorough n<=4,w<=4) per '
+                  'field kind in three directions (implementation writer -> reference reader, implementation round trip, '
+                  'reference writer with every legal difference width -> implementation reader), boundary lattice for '
+                  'widths 5..64, and E1 choice-tree exploration of "same subsets stored both ways"',
+        text='Every column of the bounded domain is written compressed by the real encoder and read by an independent '
+             'reader, decoded by the real decoder, and written by the reference writer with every legal difference '
+             'width for the real decoder; the same data stored compressed and uncompressed must decode identically.',
+        note='Trusted: reference reader/writer (R). Columns FM-94 cannot compress (difference width > 63) and '
+             'character columns with non-zero base + increments are outside the envelope.'),
+    'C06': dict(
+        level='model_checking', design='DESIGN.md §4 C06',
+        technique='stateless choice-tree exploration (E1) over unmerged histories of earlier subsets: every assignment '
+                  'of subset variants (replication counts, bitmap bits, 203 values, value deviations) to positions 1..m, '
+                  'judged by the reference model applied freshly per subset and by the same subset decoded alone',
+        text='For templates of G, templates ending inside an operator construct, and bitmap constructs whose base '
+             'counts / bit patterns differ between subsets, every history of m<=3 subsets is decoded (and encoded) '
+             'jointly; each position must equal the fresh-application expectation and the alone-decode, incl. the '
+             'hierarchical view. A violation is classified leak (alone OK) or decode (alone wrong).',
+        note='Trusted: R applied per subset; differential alone-decode. Histories longer than 3 subsets are beyond the bound.'),
+    'C07': dict(
+        level='model_checking', design='DESIGN.md §4 C07',
+        technique='exhaustive enumeration of bitmap structures (base x operator chain x bitmap source x length N<=4 x '
+                  'ALL 2^N patterns x follower form x separators 235000/237255/element) with deviation-bounded field '
+                  'values (E1), compressed and uncompressed, subsets with different bitmaps',
+        text='For every structure the reference model computes the owner of every attribute value from the expansion '
+             'alone; the real decoder\'s and encoder\'s bitmap links, labels (T/F/D/R/A), 225255 coding, and the '
+             'nested JSON ownership (attribute of its owner with 031021/008023/008024 meaning, each value once) must agree.',
+        note='Trusted: R link computation (A.4) and nested rules (A.6). Operators 201/202/203/207 in force at bitmapped '
+             'elements/markers and 204 across markers are outside the envelope (FM-94 ambiguous).'),
 }
 
 NOT_YET = 'check not built yet in this round (design in DESIGN.md §4); no claim is made'
